@@ -8,6 +8,7 @@ mod isa;
 mod props;
 mod refver;
 mod soup;
+mod vmx;
 
 use engine::*;
 use serde_json::{json, Value};
